@@ -393,13 +393,13 @@ def constructM (E : Ext) (info : PaneInfo) (conv : Nat → Val → Result) (chec
     match initLoop E (Facts.initDefaultCalled == some true) conv checked info.fields.zipIdx bound [] [] with
     | .error r => r
     | .ok (vals, set) =>
-      match runHook E info vals with
+      match runHook E info vals set with
       | .ok final => .value (mkObj info final set)
       | .error e => .raises e
 
 /-- `Cls.from_dict_unchecked(d, set_fields=…)` -/
 def fromDictUnchecked (E : Ext) (info : PaneInfo) (d : List (String × Val)) (set : Option (List String)) : Result :=
-  match runHook E info d with
+  match runHook E info d (set.getD (d.map (·.1))) with
   | .ok final => .value (mkObj info final (set.getD (d.map (·.1))))
   | .error e => .raises e
 
